@@ -61,6 +61,12 @@ def injected_faults(sc, seed, tier, only=None):
         fl = ew.gen_flags(r, allow_delete=(i % 3 == 2))
         fl["maxerr"] = 100
         fl["j"] = 1 if i % 4 != 3 else 4
+        # (seed C10-4) every other world runs with the checksum database: what a faulted run stores there must not make the NEXT run
+        # accept the file the fault left behind
+        xargs = []
+        if i % 2 == 1:
+            fl.pop("so", None); fl.pop("it", None); fl["ck"] = 1
+            xargs = ["--checksum-db=true"]
         tpl = os.path.join(sc.dir, "itpl%d" % i)
         ew.mk(tpl + "/src", sspec); ew.mk(tpl + "/dst", sorted(dspec, key=lambda e: (e["p"].count("/"), e["k"] != "d")))
         os.makedirs(tpl + "/src", exist_ok=True); os.makedirs(tpl + "/dst", exist_ok=True)
@@ -75,7 +81,7 @@ def injected_faults(sc, seed, tier, only=None):
                 os.remove(log)
             e2 = dict(env); e2.update(extra)
             ids = ew.Ids()
-            case, obs, raw = ew.run_once(sc, base + "/src", base + "/dst", fl, ids, extra_env=e2)
+            case, obs, raw = ew.run_once(sc, base + "/src", base + "/dst", fl, ids, extra_env=e2, extra_args=xargs)
             raw["case"], raw["obs"], raw["ids"] = case, obs, ids
             lines = {}
             if os.path.exists(log):
@@ -92,8 +98,16 @@ def injected_faults(sc, seed, tier, only=None):
         stats["worlds"] += 1
         ncalls = max(calls) if calls else 0
         ks = list(range(1, ncalls + 1))
+        if xargs:
+            # SQLite's own writes dominate the numbering: fail the calls on the mirrored files, and a few of the database's
+            own = [k for k in ks if k in calls and ".sy-checksums.db" in calls[k][2]]
+            ks = [k for k in ks if k not in own]
+            extra_db = sorted(r.sample(own, min(3, len(own))))
+        else:
+            extra_db = []
         if len(ks) > cap:
             ks = sorted(r.sample(ks, cap))
+        ks = sorted(ks + extra_db)
         plans = [((k,), errnos[(k + i) % 4]) for k in ks]
         if ncalls >= 2:
             for _ in range(3 if tier == "quick" else 20):
@@ -120,10 +134,19 @@ def injected_faults(sc, seed, tier, only=None):
             else:
                 for f in c01.c01_oracle(fl, raw, 0):
                     viol.append(dict(ident, why="exit status 0 although the C01 postcondition fails: %s %s" % (f["path"], f["why"])))
+            # "no destination file is left silently wrong": the SAME command once more, without a fault, over what the faulted run left
+            # (its files, its database): exit status 0 must mean the C01 postcondition again
+            if raw["rc"] != 0 and not raw["refused"] and not raw.get("timeout"):
+                case2, obs2, raw2 = ew.run_once(sc, base + "/src", base + "/dst", fl, ew.Ids(), extra_args=xargs)
+                kv2 = dict(x.split("=", 1) for x in obs2.split(" "))
+                raw2["nerr"] = int(kv2["nerr"]); raw2["refused"] = kv2["refused"] == "1"
+                stats["second_runs"] = stats.get("second_runs", 0) + 1
+                for f in c01.c01_oracle(fl, raw2, 0):
+                    viol.append(dict(ident, why="the run after the faulted one exits 0 although the C01 postcondition fails: %s %s" % (f["path"], f["why"])))
             # correspondence with Model/EngineFaults.v: given WHICH transfers failed (the error objects) and WHAT they left at their own
             # paths (junk), the rest of the run -- every other path, the events, the exit status -- must be run_f's
             errp = set(raw["errpaths"])
-            if errp and all(pth in raw["src"] and raw["src"][pth]["kind"] == "f" for pth in errp) and not raw["refused"]:
+            if errp and all(pth in raw["src"] and raw["src"][pth]["kind"] == "f" for pth in errp) and not raw["refused"] and not xargs:
                 idp = {raw["ids"].path(pth) for pth in errp}
                 dst_items = dict(x.split("=", 1) for x in raw["obs"].split(" ")).get("dst", "-")
                 junk = [it for it in dst_items.split(",") if it != "-" and it.split(":")[1] in idp]
